@@ -83,7 +83,17 @@ Qed.
 Lemma step_exact st o : progs_nodup st ->
   exact_step st (step st o) (step_events st o) /\ progs_nodup (step st o).
 Proof.
-  intros PN. destruct o as [n src|n|l now|el]; cbn [Loader.step Counters.step_events].
+  intros PN. destruct o as [n src|n|l now|el|n m ls e]; cbn [Loader.step Counters.step_events].
+  5:{ (* mark: no event, no counter *)
+      unfold mark. destruct (ps_handle (getp n st)) eqn:H.
+      2:{ split; [|exact PN]. split; [rewrite count_nil; lia|]. intros p. rewrite !count_nil. repeat split; lia. }
+      destruct (exec_effect _ _ _ _).
+      2:{ split; [|exact PN]. split; [rewrite count_nil; lia|]. intros p. rewrite !count_nil. repeat split; lia. }
+      unfold setp. split; [|unfold progs_nodup; cbn [st_progs]; apply bupdate_nodup; exact PN].
+      split; [cbn [st_lines]; rewrite count_nil; lia|]. intros p. rewrite !count_nil.
+      destruct (bytes_eqb p n) eqn:E.
+      - apply bytes_eqb_spec in E. subst p. rewrite getp_bupdate_same. cbn [ps_loads ps_errs ps_unloads ps_rterrs]. repeat split; lia.
+      - apply bytes_eqb_false in E. rewrite quad_other by exact E. repeat split; lia. }
   - (* load *)
     unfold Loader.load. destruct (load_r st n src) as [st' r] eqn:LR. cbn [fst snd].
     split; [|exact (proj1 (proj2 (proj2 (load_r_handles c1 true omit compile vmstep st n src st' r LR))) PN)].
